@@ -224,6 +224,54 @@ fn run_agg(job: &Value) {
 }
 
 /// corpus for the feature-subset builds of C17: lines `evaluator<TAB>expression`
+/// implicit products beyond the token bound: every kind of left and right factor, every suffix after the right factor, every operator
+/// to the left, each also inside round, floor and ceiling brackets and as a function argument (the specification parses and judges them:
+/// CalcTrace validates every one of these calls - verdict, tree, step counts, value on the small-integer fragment)
+pub fn jux_corpus(v: &vocab::Vocab, e: &str) -> Vec<String> {
+    let lefts: Vec<&str> = if v.has_kind(e, "lf") { vec!["2", "(2)", "abs(2)", "3!", "⌊2.5⌋", "⌈1.5⌉"] } else if v.has_kind(e, "bang") { vec!["2", "(2)", "abs(2)", "3!"] } else { vec!["2", "(2)", "abs(2)"] };
+    let rights: Vec<&str> = if v.has_kind(e, "lf") { vec!["(3)", "abs(3)", "⌊3.5⌋", "3"] } else { vec!["(3)", "abs(3)", "3"] };
+    let mut suffixes: Vec<&str> = vec!["", "^2", "²", "*5", "+1", "^2^3", "(4)"];
+    if v.has_kind(e, "bang") { suffixes.extend(["!", "^2!", "!²"]); }
+    if v.has_kind(e, "deg") { suffixes.extend(["°", "rad"]); }
+    if v.has_kind(e, "mod") { suffixes.push("%2"); }
+    if v.has_kind(e, "shl") { suffixes.extend(["<<1", "&6", "|1"]); }
+    let mut out = Vec::new();
+    for l in &lefts { for r in &rights {
+        if *r == "3" && (*l == "2") { continue; }                 // two adjacent literals would merge
+        for sfx in &suffixes { for pre in ["", "-", "6/", "2^", "1+", "2*"] {
+            let s = format!("{}{}{}{}", pre, l, r, sfx);
+            out.push(s.clone());
+            // the same product inside brackets of each kind and as an argument (a bracket that is peeled or re-attached shows here)
+            if (sfx.is_empty() || *sfx == "(4)" || *sfx == "!") && (pre.is_empty() || pre == "2^") {
+                out.push(format!("({})", s));
+                out.push(format!("abs({})", s));
+                if v.has_kind(e, "lf") { out.push(format!("⌊{}⌋", s)); out.push(format!("⌈{}⌉", s)); out.push(format!("⌊{}⌋(2)", s)); }
+            }
+        } }
+    } }
+    out
+}
+
+fn run_juxcorpus(job: &Value) {
+    let v = vocab::Vocab::load(job["vocab"].as_str().unwrap());
+    let e = job["e"].as_str().unwrap().to_string();
+    let mut out = open_out(job, profile_name());
+    let ph = call::default_placeholder(&e);
+    for (i, text) in jux_corpus(&v, &e).iter().enumerate() {
+        out.heartbeat(i as u64);
+        out.stats.items += 1;
+        let (o, t) = call::call(&e, text, &ph);
+        out.stats.calls += 1;
+        out.note_ticks(text, &t);
+        let key = h64(&("juxcorpus", &e, text)); out.stats.distinct.insert(key); out.stats.nontrivial.insert(key);
+        if !o.returned() { out.finding("panic", &e, text, &ph, "Ok or Err", &o.show(), json!({})); }
+        out.stats.events += 1;
+        out.event(&e, text, &ph, &o, &t, json!({"v": "unclaimed"}), true);
+    }
+    out.heartbeat(u64::MAX);
+    write_stats(job, &mut out, true);
+}
+
 fn run_corpus(job: &Value) {
     use std::io::Write;
     let v = vocab::Vocab::load(job["vocab"].as_str().unwrap());
@@ -282,19 +330,7 @@ fn run_corpus(job: &Value) {
     // every use of a precedence level (the levels are cfg-dependent enum ordinals): implicit products with every kind of left and
     // right factor, every suffix after the right factor, every operator to the left
     for e in ["f64", "i64", "dec", "cpx", "num"] {
-        let lefts: Vec<&str> = if v.has_kind(e, "lf") { vec!["2", "(2)", "abs(2)", "3!", "⌊2.5⌋", "⌈1.5⌉"] } else if v.has_kind(e, "bang") { vec!["2", "(2)", "abs(2)", "3!"] } else { vec!["2", "(2)", "abs(2)"] };
-        let rights: Vec<&str> = if v.has_kind(e, "lf") { vec!["(3)", "abs(3)", "⌊3.5⌋", "3"] } else { vec!["(3)", "abs(3)", "3"] };
-        let mut suffixes: Vec<&str> = vec!["", "^2", "²", "*5", "+1", "^2^3", "(4)"];
-        if v.has_kind(e, "bang") { suffixes.extend(["!", "^2!", "!²"]); }
-        if v.has_kind(e, "deg") { suffixes.extend(["°", "rad"]); }
-        if v.has_kind(e, "mod") { suffixes.push("%2"); }
-        if v.has_kind(e, "shl") { suffixes.extend(["<<1", "&6", "|1"]); }
-        for l in &lefts { for r in &rights {
-            if *r == "3" && (*l == "2") { continue; }                 // two adjacent literals would merge
-            for sfx in &suffixes { for pre in ["", "-", "6/", "2^", "1+", "2*"] {
-                let _ = writeln!(w, "{}\t{}{}{}{}", e, pre, l, r, sfx); n += 1;
-            } }
-        } }
+        for line in jux_corpus(&v, e) { let _ = writeln!(w, "{}\t{}", e, line); n += 1; }
     }
     // every function, alias and postfix operator of every evaluator on signed arguments (a feature subset may select another
     // implementation of a helper: each must behave as in the all-features build)
@@ -457,6 +493,7 @@ fn main() {
                 write_stats(&job, &mut out, true);
             }
             "corpus" => run_corpus(&job),
+            "juxcorpus" => run_juxcorpus(&job),
             "conv" => { let mut out = open_out(&job, profile_name()); conv::run_conv(&mut out, job["seed"].as_u64().unwrap_or(1), job["random"].as_u64().unwrap_or(100000)); out.heartbeat(u64::MAX); write_stats(&job, &mut out, true); }
             "literals" => { let mut out = open_out(&job, profile_name()); conv::run_literals(&mut out, job["seed"].as_u64().unwrap_or(1), job["random"].as_u64().unwrap_or(2000), job["maxlen"].as_u64().unwrap_or(5) as usize); out.heartbeat(u64::MAX); write_stats(&job, &mut out, true); }
             "history" => {
